@@ -280,7 +280,10 @@ def run(argv):
         d = gen_desc(rng, k)
         if k == 0:
             d["kwargs"]["bulk_prefix"] = "%"          # F12 witness always first
+        while k == 1 and d["replacement"]:       # (the export path is compared with the direct rendering only without a replacement table)
+            d = gen_desc(rng, k)
         if k == 1:
+            d["allowed"], d["required"] = [], []       # (every reaction is kept: both modifiers apply to a reaction of the network)
             d["rate_modifier"] = {"2": "1.0e-10", "5": 0.0}      # F19 witness (export path) always second; a numeric zero too
         while k == 2 and d["replacement"]:
             d = gen_desc(rng, k)
